@@ -116,10 +116,14 @@ type c08Hub struct {
 	recordFrom    group.MemberIndex
 	recorded      map[int][]byte
 	drip          *c08Drip
-	dripWG        sync.WaitGroup
-	seq           uint64
-	stats         map[string]int
-	lastSend      time.Time
+	quorum        map[group.MemberIndex]bool // the signers under test (nil: every seat); other seats only listen and talk
+	// same-session messages claiming these members, which the attempt
+	// excluded, accompany every genuine message (see onSend)
+	outsiderClaims []group.MemberIndex
+	dripWG         sync.WaitGroup
+	seq            uint64
+	stats          map[string]int
+	lastSend       time.Time
 }
 
 func c08NewHub(seats []group.MemberIndex, pubKeys map[group.MemberIndex][]byte, plan map[string]int) *c08Hub {
@@ -230,7 +234,7 @@ func (d *c08Drip) String() string {
 // normal flow if the drip plan covers it. Returns true when it did.
 func (h *c08Hub) dripIntercept(r, sender group.MemberIndex, ti int, typ string, raw []byte) bool {
 	d := h.drip
-	if d == nil || r != d.receiver || sender == r {
+	if d == nil || r != d.receiver || sender == r || (h.quorum != nil && !h.quorum[sender]) {
 		return false
 	}
 	isLag := ti == d.boundary && sender == d.lagSender
@@ -254,7 +258,11 @@ func (h *c08Hub) dripIntercept(r, sender group.MemberIndex, ti int, typ string, 
 	} else {
 		d.next[sender] = msg
 	}
-	ready := d.lagMsg != nil && len(d.next) == len(h.seats)-1
+	peers := len(h.seats) - 1
+	if h.quorum != nil {
+		peers = len(h.quorum) - 1
+	}
+	ready := d.lagMsg != nil && len(d.next) == peers
 	if ready {
 		d.released = true
 		h.stats["drip-released"]++
@@ -490,6 +498,18 @@ func (h *c08Hub) onSend(sender group.MemberIndex, typ string, raw []byte) {
 			h.recorded[ti] = append([]byte{}, raw...)
 		}
 		h.mu.Unlock()
+	}
+	if h.quorum == nil || h.quorum[sender] {
+		// a member the attempt excluded sends, in the SAME session, what the
+		// genuine sender is about to send (content altered): phase by phase
+		for _, claimed := range h.outsiderClaims {
+			crafted := c08Recraft(ti, raw, uint32(claimed), "", true)
+			for _, r := range h.seats {
+				if r != claimed && crafted != nil {
+					h.deliverForeign(r, claimed, typ, crafted, "excluded-member-message")
+				}
+			}
+		}
 	}
 	for _, from := range h.injectFrom {
 		if from != sender {
@@ -952,6 +972,12 @@ type c08SignCase struct {
 	inject []group.MemberIndex
 	record group.MemberIndex // harness: keep this sender's first message of every phase
 	drip   *c08Drip
+	// members of the final group which the attempt excluded but which run the
+	// same session all the same (they saw the announcements differently and
+	// believe the mapped quorum member is the excluded one)
+	outsiders map[group.MemberIndex]group.MemberIndex
+	// excluded members in whose name same-session messages of every phase are sent
+	outsiderClaims []group.MemberIndex
 }
 
 func (c *c08SignCase) describe() string {
@@ -967,7 +993,16 @@ func (c *c08SignCase) describe() string {
 	if len(sched) > 12 {
 		sched = append(sched[:12], fmt.Sprintf("...+%d", len(sched)-12))
 	}
-	return fmt.Sprintf("signers=%v msg=0x%s other-session-messages-of=%v drip=[%v] schedule=%v", c.subset, c.message.Text(16), c.inject, c.drip, sched)
+	return fmt.Sprintf("signers=%v msg=0x%s other-session-messages-of=%v drip=[%v] excluded-members-running-the-session=%v excluded-members-sending-every-phase=%v schedule=%v", c.subset, c.message.Text(16), c.inject, c.drip, c08OutsiderList(c.outsiders), c.outsiderClaims, sched)
+}
+
+func c08OutsiderList(m map[group.MemberIndex]group.MemberIndex) []string {
+	var l []string
+	for o, s := range m {
+		l = append(l, fmt.Sprintf("%d(thinks %d is out)", o, s))
+	}
+	sort.Strings(l)
+	return l
 }
 
 type c08SignOutcome struct {
@@ -1032,7 +1067,14 @@ func c08Sign(w *c08Wallet, signers map[group.MemberIndex]*signer, c *c08SignCase
 	for i, d := range w.operating {
 		pubKeys[group.MemberIndex(i+1)] = ops[w.seatOp[d-1]].pubKeyBytes
 	}
-	hub := c08NewHub(c.subset, pubKeys, c.plan)
+	seats := append([]group.MemberIndex{}, c.subset...)
+	for o := range c.outsiders {
+		seats = append(seats, o)
+	}
+	sort.Slice(seats, func(i, j int) bool { return seats[i] < seats[j] })
+	hub := c08NewHub(seats, pubKeys, c.plan)
+	hub.quorum = in
+	hub.outsiderClaims = c.outsiderClaims
 	if len(c.inject) > 0 {
 		foreign, err := c08ForeignSession()
 		if err != nil {
@@ -1094,11 +1136,45 @@ func c08Sign(w *c08Wallet, signers map[group.MemberIndex]*signer, c *c08SignCase
 			}
 		}(f, sg, ch)
 	}
+	// excluded members which run the session too: honest, but with another
+	// idea of who is excluded. They cannot finish; whatever happens to them
+	// is not under test.
+	var outsiderWG sync.WaitGroup
+	for o, swapped := range c.outsiders {
+		sg := signers[o]
+		if sg == nil {
+			continue
+		}
+		var theirExcluded []group.MemberIndex
+		for _, e := range excluded {
+			if e != o {
+				theirExcluded = append(theirExcluded, e)
+			}
+		}
+		theirExcluded = append(theirExcluded, swapped)
+		ch := &c08Chan{hub, o}
+		signing.RegisterUnmarshallers(ch)
+		outsiderWG.Add(1)
+		go func(sg *signer, ch *c08Chan, theirExcluded []group.MemberIndex) {
+			defer outsiderWG.Done()
+			defer func() { _ = recover() }()
+			wallet := sg.wallet
+			validator := group.NewMembershipValidator(&testutils.MockLogger{}, wallet.signingGroupOperators, chainSigning)
+			_, _ = signing.Execute(
+				ctx, &testutils.MockLogger{}, c.message, sessionID,
+				sg.signingGroupMemberIndex, sg.privateKeyShare,
+				wallet.groupSize(), wallet.groupDishonestThreshold(w.honest),
+				theirExcluded, ch, validator,
+			)
+		}(sg, ch, theirExcluded)
+	}
 	done := make(chan struct{})
 	go func() { wg.Wait(); close(done) }()
 	hub.pump(done)
 	hub.dripWG.Wait()
 	out.timeout = ctx.Err() == context.DeadlineExceeded
+	cancel()
+	outsiderWG.Wait()
 	out.stats = hub.stats
 	out.recorded = hub.recorded
 	return out, nil
@@ -1379,6 +1455,12 @@ func c08SignLabels(w *c08Wallet, c *c08SignCase, kind string, out *c08SignOutcom
 	if c.drip != nil {
 		labels = append(labels, "drip", fmt.Sprintf("drip-boundary:%d", c.drip.boundary))
 	}
+	if len(c.outsiders) > 0 {
+		labels = append(labels, "excluded-member-runs-the-session")
+	}
+	if len(c.outsiderClaims) > 0 {
+		labels = append(labels, "excluded-member-sends-every-phase")
+	}
 	distinctOps := map[int]bool{}
 	for _, d := range w.operating {
 		distinctOps[w.seatOp[d-1]] = true
@@ -1464,7 +1546,42 @@ func c08DrawSignCase(t *rapid.T, w *c08Wallet, label string, allowLarger bool) (
 	c.plan, c.chaos = c08DrawPlan(t, c.subset, label)
 	c.inject = c08DrawInject(t, c.subset, label)
 	c.drip = c08DrawDrip(t, c.subset, c.plan, label)
+	c.outsiders, c.outsiderClaims = c08DrawOutsiders(t, m, c.subset, label)
 	return c, kind
+}
+
+// c08DrawOutsiders draws, among the final members the attempt excludes, those
+// which run the same session nevertheless (each believing a drawn quorum
+// member is excluded instead of itself) and those in whose name same-session
+// messages of every phase are sent.
+func c08DrawOutsiders(t *rapid.T, m int, subset []group.MemberIndex, label string) (map[group.MemberIndex]group.MemberIndex, []group.MemberIndex) {
+	in := map[group.MemberIndex]bool{}
+	for _, f := range subset {
+		in[f] = true
+	}
+	var excluded []group.MemberIndex
+	for f := 1; f <= m; f++ {
+		if !in[group.MemberIndex(f)] {
+			excluded = append(excluded, group.MemberIndex(f))
+		}
+	}
+	if len(excluded) == 0 {
+		return nil, nil
+	}
+	outsiders := map[group.MemberIndex]group.MemberIndex{}
+	var claims []group.MemberIndex
+	for _, e := range excluded {
+		switch rapid.SampledFrom([]string{"runs-session", "runs-session", "sends-every-phase", "silent", "both"}).Draw(t, fmt.Sprintf("%sExcluded%d", label, e)) {
+		case "runs-session":
+			outsiders[e] = rapid.SampledFrom(subset).Draw(t, fmt.Sprintf("%sExcluded%dThinksOut", label, e))
+		case "sends-every-phase":
+			claims = append(claims, e)
+		case "both":
+			outsiders[e] = rapid.SampledFrom(subset).Draw(t, fmt.Sprintf("%sExcluded%dThinksOut", label, e))
+			claims = append(claims, e)
+		}
+	}
+	return outsiders, claims
 }
 
 // c08DrawDrip draws (two thirds of the cases) a drip plan and clears the
@@ -1588,6 +1705,7 @@ func TestVerif_C08_EverySubset(t *testing.T) {
 						sc.plan, sc.chaos = c08DrawPlan(rt, sc.subset, label)
 						sc.inject = c08DrawInject(rt, sc.subset, label)
 						sc.drip = c08DrawDrip(rt, sc.subset, sc.plan, label)
+						sc.outsiders, sc.outsiderClaims = c08DrawOutsiders(rt, m, sc.subset, label)
 						jobs = append(jobs, job{w, sc, kind})
 					}
 				}
